@@ -132,13 +132,35 @@ func runC33(c *core.Ctx) {
 			n++
 			for k, fld := range []string{"numMiniBlocks", "numTxs"} {
 				var ls []ssa.Value
-				leaves(cc.Args[k+1], token.ADD, &ls)
+				total := cc.Args[k+1]
+				// the totals may be computed by a method of the package handed the new counts (one return): the
+				// sum is then that result, its parameters standing for the arguments
+				unbind := func(v ssa.Value) ssa.Value { return v }
+				if ex, isEx := total.(*ssa.Extract); isEx {
+					if hc, isCall := ex.Tuple.(*ssa.Call); isCall {
+						if h := hc.Call.StaticCallee(); h != nil && h.Blocks != nil && h.Pkg == fn.Pkg {
+							if rets := core.Returns(h); len(rets) == 1 && core.RetOperand(rets[0], ex.Index) != nil {
+								total = core.RetOperand(rets[0], ex.Index)
+								unbind = func(v ssa.Value) ssa.Value {
+									for i, p := range h.Params {
+										if ssa.Value(p) == v && i < len(hc.Call.Args) {
+											return hc.Call.Args[i]
+										}
+									}
+									return v
+								}
+								c.Analysed(fname(h))
+							}
+						}
+					}
+				}
+				leaves(total, token.ADD, &ls)
 				acc, fresh := false, false
 				for _, l := range ls {
 					if atomicOn(l, "LoadUint32", fld) {
 						acc = true
 					}
-					if stripConv(l) == ssa.Value(fn.Params[k+1]) {
+					if unbind(stripConv(l)) == ssa.Value(fn.Params[k+1]) {
 						fresh = true
 					}
 				}
